@@ -831,6 +831,18 @@ var pinnedQueries = []string{
 	`{ users { id secret } s2root s1echo(s: 1) }`,
 	`{ __typename }`,
 	`{ everyone { ... on Everyone { ... on User { id } } } }`,
+	// same alias below the root: different object fields (different types), nested-merged form, through
+	// fragments, under union members / the union itself, leaf fields, different arguments
+	`{ item(id: 1) { x: owner { name } x: box { size } } }`,
+	`{ item(id: 1) { x: parent { y: owner { name } } x: parent { y: box { size } } } }`,
+	`{ items { ... on Item { x: box { label } } ...F ...F } } fragment F on Item { x: owner { rank } }`,
+	`{ things { ... on Item { x: owner { name } } ... on Thing { ... on Item { x: box { size } } } ... on Gadget { x: maker { name } x: crate { size } } } }`,
+	`{ itemsPaged { x: edges { cursor } x: pageInfo { hasNextPage } } }`,
+	`{ item(id: 1) { x: id x: name } }`,
+	`{ item(id: 1) { x: children(first: 1) { id } x: children(first: 2) { id } x: isKind(k: ALPHA) } }`,
+	`{ users { x: device { isOn } x: peer { __typename } } }`,
+	`{ users { x: secret x: greet a: greet(salute: "a") a: greet(salute: "b") } }`,
+	`{ everyone { ... on User { x: device { id } } ... on Everyone { ... on User { x: peer { __typename } } } } }`,
 }
 
 func pinnedCase(i int) *gcase {
@@ -876,10 +888,23 @@ func genCase(r *rand.Rand, i int, zoo, gw *schemaDesc) *gcase {
 			g.on[benign] = true
 		}
 	}
-	c.Query = g.document()
-	if r.Intn(100) < 25 {
-		g.feat("bytes:mutated_query")
-		c.Query = mutateBytes(r, c.Query)
+	conflict := false
+	if r.Intn(100) < 14 {
+		// a valid document around one same-alias conflict below the root
+		if doc, ok := conflictDoc(g); ok {
+			c.Query, conflict = doc, true
+			if r.Intn(100) < 8 {
+				g.feat("bytes:mutated_query")
+				c.Query = mutateBytes(r, c.Query)
+			}
+		}
+	}
+	if !conflict {
+		c.Query = g.document()
+		if r.Intn(100) < 25 {
+			g.feat("bytes:mutated_query")
+			c.Query = mutateBytes(r, c.Query)
+		}
 	}
 
 	// variables
